@@ -861,6 +861,20 @@ def gen_cascade_program(rng, isa=None):
             if trap[-1]["toks"][0]["s"] == "mvi":
                 trap[-1]["toks"] = [tok("id", "mvi", True), num_tok(rng, 7, True), tok("op", ",", False), tok("op", ".", True), tok("id", "k", False)]
             items[at:at] = trap
+    # constants that carry a SIZE, read by unsized data: the size is part of what must be stable
+    if rng.random() < 0.3:
+        back = [it["name"] for it in items if it["k"] == "label"] or labels
+        c = rng.random()
+        if c < 0.35:
+            ce = {"k": "sshort", "e": var(rng.choice(back)), "n": numlit(rng.choice(["8", "16"]))}
+        elif c < 0.75:
+            ce = {"k": "sshort", "e": numlit("0"), "n": _cmp("add", _cmp("mul", var("$"), numlit("8")), numlit("8"))}     # grows with its own position
+        else:
+            ce = {"k": "sshort", "e": numlit("5"), "n": _cmp("add", _cmp("and", var(rng.choice(back)), numlit("7")), numlit("8"))}
+        use = {"k": "data", "w": -1, "es": [var("sz")]}
+        pos_use = rng.randrange(0, len(items) + 1)
+        items.insert(pos_use, use)
+        items.insert(rng.randrange(0, len(items) + 1), {"k": "const", "lvl": 0, "name": "sz", "e": ce})
     # user functions whose bodies read the address of the calling item or a label, called in operands
     fns = []
     if rng.random() < 0.3:
@@ -899,6 +913,34 @@ def gen_cascade_program(rng, isa=None):
     if banks:
         P["banks"] = banks
     return P
+
+
+def sized_constant_programs():
+    """small programs in which a constant's SIZE depends on where it stands, read by unsized data before / after it
+    (some have a consistent layout, some have none at all: then no budget may make them assemble)"""
+    def it(**kw):
+        b = {"k": "", "lvl": 0, "name": "", "e": {"k": "none"}, "toks": [], "w": -1, "es": [], "n": 0}
+        b.update(kw)
+        return b
+    grow = {"k": "sshort", "e": numlit("0"), "n": _cmp("add", _cmp("mul", var("$"), numlit("8")), numlit("8"))}
+    grow5 = {"k": "sshort", "e": numlit("5"), "n": _cmp("add", _cmp("mul", var("$"), numlit("8")), numlit("8"))}
+    bylab = {"k": "sshort", "e": numlit("0"), "n": _cmp("add", _cmp("and", var("lab"), numlit("24")), numlit("8"))}
+    use = it(k="data", w=-1, es=[var("sz")])
+    d8 = it(k="data", w=8, es=[numlit("1")])
+    out = []
+    for ce in (grow, grow5, bylab):
+        for shape in ([use, it(k="const", name="sz", e=ce)],
+                      [d8, use, it(k="const", name="sz", e=ce)],
+                      [it(k="const", name="sz", e=ce), use],
+                      [d8, it(k="const", name="sz", e=ce), use, d8],
+                      [use, d8, d8, it(k="const", name="sz", e=ce), use]):
+            items = [dict(x) for x in shape]
+            if ce is bylab:
+                items.append(it(k="label", name="lab"))
+            else:
+                out.append({"rules": [], "items": [dict(x) for x in shape] + [it(k="label", name="lab")]})   # a label after it sees the growth
+            out.append({"rules": [], "items": items})
+    return out
 
 
 # ---------------------------------------------------------------------------
